@@ -386,6 +386,9 @@ func (vc *VC) callMods(fr *Frame, c *ssa.CallCommon, mods map[string]bool, depth
 			mods["W_lockheld"] = true
 			mods["W_lockcnt"] = true
 		}
+		if vc.trackLocks && strings.Contains(name, "sync.Cond") {
+			mods["W_wakes"] = true
+		}
 		return false
 	}
 	if ms, ok := nativeMods(name); ok {
@@ -1024,6 +1027,11 @@ func (vc *VC) lockRecord(st *State, name string, args []Term) {
 		vc.set(st, "W_lockcnt", vc.q.Define("W_lockcnt", Store(cnt, Root(addr), Store(Select(cnt, Root(addr)), PathOf(addr), Add(cur, IntLit(1))))))
 	case strings.HasSuffix(name, ").Unlock"), strings.HasSuffix(name, ").RUnlock"):
 		held = False
+	case strings.HasSuffix(name, ").Broadcast"), strings.HasSuffix(name, ").Signal"):
+		w := vc.get(st, "W_wakes", lockCntSort)
+		cur := Select(Select(w, Root(addr)), PathOf(addr))
+		vc.set(st, "W_wakes", vc.q.Define("W_wakes", Store(w, Root(addr), Store(Select(w, Root(addr)), PathOf(addr), Add(cur, IntLit(1))))))
+		return
 	default:
 		return
 	}
@@ -1047,6 +1055,9 @@ func (vc *VC) iterateCallback(fr *Frame, st *State, instr *ssa.Call, c *ssa.Call
 		if sig.Params().At(i).Name() == con.Iterates || fmt.Sprintf("arg%d", i) == con.Iterates {
 			idx = i
 		}
+	}
+	if idx >= 0 && !c.IsInvoke() && sig.Recv() != nil && len(c.Args) == sig.Params().Len()+1 {
+		idx++ // a static method call carries the receiver as its first argument
 	}
 	if idx < 0 || idx >= len(c.Args) {
 		return false
